@@ -221,7 +221,14 @@ fn apply_lens(id: &str, case: &Case, expected: &Value) -> Option<Value> {
             if !s.contains("onUpdate:dynArg") {
                 return None;
             }
-            serde_json::from_str(&s.replace("onUpdate:dynArg", "onUpdatedynArg")).ok()
+            let mut v: Value = serde_json::from_str(&s.replace("onUpdate:dynArg", "onUpdatedynArg")).ok()?;
+            // the listener record is sorted by key: restore the order under the new key
+            if let Some(f) = v.get_mut("fired").and_then(|f| f.as_array_mut()) {
+                f.sort_by_key(|e| {
+                    format!("{}#{}", e["key"].as_str().unwrap_or(""), e["occurrence"].as_u64().unwrap_or(0))
+                });
+            }
+            Some(v)
         }
         _ => None,
     }
